@@ -9,6 +9,7 @@ package main
 // environment variable, the built-in value; an empty environment variable does
 // not hide a built-in pin (C13: "when a fingerprint is configured ...").
 //@ func chooseFingerprint(fingerprint) (res)
+//@   locals fingerprint
 //@   props C13
 //@   ghost n int = 0
 //@   ghost r0 string = ""
@@ -16,6 +17,7 @@ package main
 //@   ensures chosen_by_first_non_empty: n == 1 && res == r0
 
 //@ func chooseC2(c2) (res)
+//@   locals c2
 //@   props C13
 //@   ghost n int = 0
 //@   ghost r0 string = ""
@@ -24,6 +26,7 @@ package main
 
 // shell hands exactly the chosen fingerprint and address to the library.
 //@ func shell(ctx, c2, fingerprint, args) (err)
+//@   locals ctx c2 fingerprint args
 //@   props C13
 //@   ghost fp string = ""
 //@   ghost nFP int = 0
